@@ -1,0 +1,30 @@
+//go:build verif
+
+package object
+
+// ---- C19: string methods that wrap a Go strings function returning a list of strings ------------------------------
+// The module wrappers of modules/strings are under contract in that package; they cover the scalar-valued methods.
+// split / fields return lists. Engine model: a pure standard-library function with a []string result yields a fresh
+// array whose row and length are uninterpreted functions of its arguments - uflen("ext:strings.Split", s, sep) and
+// ufelem("ext:strings.Split", k, s, sep) name them - so "returns exactly what Go returns" is stated element by
+// element. NewStringList wraps every element, in order, in a fresh String.
+
+//@ func NewStringList
+//@ props C19
+//@ modifies nothing
+//@ invariant 1: array != nil && fresh(array) && fresh(array.items) && len(array.items) == iter && forall(k, 0, iter, typeof(array.items[k]) == *String && ref(array.items[k]) != nil && array.items[k].(*String).value == s[k])
+//@ ensures[C19.stringlist.elems] result != nil && fresh(result) && len(result.items) == len(s) && forall(k, 0, len(s), typeof(result.items[k]) == *String && ref(result.items[k]) != nil && result.items[k].(*String).value == s[k])
+
+//@ func (*String).Split
+//@ props C19
+//@ assume[recv.nonnil] s != nil
+//@ assume[arg.wf] obj != nil && ref(obj) != nil
+//@ let sep = obj.(*String).value
+//@ ensures[C19.str.split.len] typeof(obj) == *String ==> typeof(result) == *List && ref(result) != nil && len(result.(*List).items) == uflen("ext:strings.Split", s.value, sep)
+//@ ensures[C19.str.split.elems] typeof(obj) == *String ==> typeof(result) == *List && ref(result) != nil && forall(k, 0, len(result.(*List).items), typeof(result.(*List).items[k]) == *String && ref(result.(*List).items[k]) != nil && result.(*List).items[k].(*String).value == ufelem("ext:strings.Split", k, s.value, sep))
+
+//@ func (*String).Fields
+//@ props C19
+//@ assume[recv.nonnil] s != nil
+//@ ensures[C19.str.fields.len] typeof(result) == *List && ref(result) != nil && len(result.(*List).items) == uflen("ext:strings.Fields", s.value)
+//@ ensures[C19.str.fields.elems] typeof(result) == *List && ref(result) != nil && forall(k, 0, len(result.(*List).items), typeof(result.(*List).items[k]) == *String && ref(result.(*List).items[k]) != nil && result.(*List).items[k].(*String).value == ufelem("ext:strings.Fields", k, s.value))
